@@ -132,6 +132,25 @@ def pairs(P, R, f):
             left_store = [x for x in stores if isinstance(x.targets[0].value, ast.Name) and x.targets[0].value.id in keys['_key_left']]
             ok = ok and bool(lens) and bool(left_store) and norm(left_store[0].value) in norm(lens[0])
             R.check(ok, 'C05.b', f, s, f'right key = the loop index {i}, once per emitted left key', f'right keys `{norm(v)}` are not the loop index repeated once per emitted left key')
+    # C05.f: an inert right row (missing/empty geometry => NaN bounds, element None) never reaches the exact predicate
+    import cfg as cfgmod
+    C = cfgmod.build(f.node)
+    pred_calls = [c for c in ast.walk(loop) if isinstance(c, ast.Call) and isinstance(c.func, ast.Attribute) and c.func.attr == 'intersects'
+                  and astq.arg_of(c, kw='inds') is not None]
+    for c in pred_calls:
+        st = c
+        while not isinstance(st, ast.stmt):
+            st = st._parent
+        guards = []
+        for g in ast.walk(loop):
+            if isinstance(g, ast.If) and any(isinstance(x, ast.Continue) for x in g.body):
+                t = norm(g.test)
+                if ('isnan' in t or 'is None' in t or 'isna' in t) :
+                    guards.append(C.node(g))
+        ok = bool(guards) and C.every_path_passes(C.node(loop.body[0]), C.node(st), guards)
+        R.check(ok, 'C05.f', f, c, 'a right row without a valid box (missing/empty geometry) is skipped before the exact predicate',
+                'a missing right geometry reaches the exact predicate: its NaN bounds select every left row as candidate and intersects(None) raises ValueError',
+                construct='skip right rows with NaN bounds')
     # the lists are pre-filled with empty arrays for rows without candidates
     for lst in keys['_key_left'] | keys['_key_right']:
         d = [x for x in astq.assignments(f, lst) if x[0] == 'expr']
